@@ -72,6 +72,19 @@ PROPS["C07"] = dict(
     trusted=COMMON_TRUST, excluded=["timer accuracy", "semaphore fairness"],
 )
 
+PROPS["C05"] = dict(
+    units=["retry"],
+    title="Retry: bounded attempts, last outcome",
+    level_text="Deductive proof (Verus) on the real retry loop (whole body of Retry::call, RetryPolicy::{should_retry,next_backoff}, MaxAttemptsSource::get_max_attempts): for every request, predicate, "
+               "backoff function, budget and every sequence of inner outcomes, 1 <= attempts <= max(1,max_attempts); the result is exactly the last inner outcome; a retry happens only after an error the predicate "
+               "accepts, only after sleeping at least next_backoff(k), only with a budget grant when a budget is configured, never after a refusal; every attempt carries the request. Loop invariant + decreases: unbounded.",
+    level_note="User closures (predicate, per-request max attempts) are deterministic total functions; Req::clone returns an equal request; tokio sleep waits at least its duration; budget internals are C08, delays C14.",
+    technique="contract-based deductive verification (Verus): loop invariant over an effect trace on the extracted retry loop",
+    design_ref="§6 C05",
+    assumptions=["closures are pure functions (call_ensures deterministic)", "Clone of the request is equal to the request", "tokio::time::sleep(d) waits at least d"],
+    trusted=COMMON_TRUST, excluded=["interleaving of several requests sharing one budget (that is C08's atomic invariant)"],
+)
+
 NOT_APPLICABLE = {
     "C12": "not built: hedge's body is a tokio::select! loop over spawned tasks; needs the select!/spawn rewrite R17 (DESIGN §7); nothing weaker is claimed in its place",
 }
